@@ -243,6 +243,17 @@ class Interp:
             for t in s.targets:
                 if isinstance(t, ast.Name):
                     env.vars.pop(t.id, None)
+                elif isinstance(t, ast.Subscript):
+                    obj = self.eval(t.value, env)
+                    k = self.hashable(self.eval(t.slice, env))
+                    if isinstance(obj, dict):
+                        if k not in obj:
+                            raise PathEnd("raise", "KeyError", s)
+                        del obj[k]
+                    else:
+                        raise Unsupported("del on %r" % (obj,))
+                else:
+                    raise Unsupported("del target")
         elif isinstance(s, ast.Try):
             self.do_try(s, env)
         elif isinstance(s, (ast.Import, ast.ImportFrom)):
